@@ -126,6 +126,53 @@ def eq_metric(ctx, got, ref):
     return close(got, val, 1e-7)
 
 
+# string metrics of scipy.spatial.distance.cdist and the extra arguments their scipy signature accepts
+METRIC_KW = [
+    ('euclidean', ('none', 'w')), ('sqeuclidean', ('none', 'w')), ('cityblock', ('none', 'w')), ('chebyshev', ('none', 'w')),
+    ('canberra', ('none', 'w')), ('braycurtis', ('none', 'w')), ('cosine', ('none', 'w')), ('correlation', ('none', 'w')),
+    ('minkowski', ('none', 'p1', 'p3', 'p2w', 'w')), ('seuclidean', ('V',)), ('mahalanobis', ('VI',)),
+]
+
+
+def h_metric_matrix(ctx, layout, batch):
+    """Metric and extra arguments solver-chosen over the whole table above: the node must hand exactly the user's extra
+    arguments to the chosen metric (every non-euclidean metric is an uninterpreted function of rows AND extra arguments)."""
+    m_total = sum(max(1, w) for w in layout)
+    metric, forms = METRIC_KW[ctx.choice('metric', len(METRIC_KW))]
+    kwform = forms[ctx.choice('extra_arguments', len(forms))]
+    kw = {}
+    pos = lambda n: [ctx.real('%s%d' % (n, c), 0, None, lo_open=True) for c in range(m_total)]     # noqa: E731
+    if kwform in ('w', 'p2w'):
+        kw['w'] = pos('w')
+    if kwform.startswith('p'):
+        kw['p'] = int(kwform[1])
+    if kwform == 'V':
+        kw['V'] = pos('V')
+    if kwform == 'VI':
+        # a symmetric positive definite matrix: diagonal + one shared off-diagonal value below the smallest diagonal entry
+        dg = pos('VI')
+        off = ctx.real('VIoff', 0, None)
+        for v in dg:
+            ctx.assume(off < v / m_total)
+        kw['VI'] = [[dg[a] if a == b else off for b in range(m_total)] for a in range(m_total)]
+    ctx.note('metric=%s extra=%s' % (metric, sorted(kw)))
+    with env(ctx):
+        m, sim, S, X, obs = build(ctx, layout, batch)
+        kwn = {k: (ctx.array(v) if isinstance(v, list) else v) for k, v in kw.items()}
+        d = elfi.Distance(metric, *S, model=m, name='d', **kwn)
+        out = d.generate(batch, with_values={'sim': ctx.array(X)})
+    ctx.claim('one_value_per_row', getattr(out, 'shape', None) == (batch,))
+    kwref = dict(kw)
+    if 'VI' in kwref:
+        kwref['VI'] = [v for r in kw['VI'] for v in r] if ctx.symbolic else kw['VI']
+    for i in range(batch):
+        if metric == 'euclidean' and ctx.symbolic:
+            ref = metric_ref(ctx, metric, kw, X[i], obs)
+        else:
+            ref = metric_ref(ctx, metric, kwref, X[i], obs)
+        ctx.claim('row_%d_is_the_chosen_metric_with_the_given_extra_arguments' % i, eq_metric(ctx, out[i], ref))
+
+
 def h_distance(ctx, metric, layout, batch, kwform=None):
     m_total = sum(max(1, w) for w in layout)
     kw = {}
@@ -277,6 +324,9 @@ HARNESSES = [
     H('minkowski_p2w', h_distance, dict(metric='minkowski', layout=[2], batch=2, kwform='p2w'), bounds='minkowski p=2, w'),
     H('seuclidean_V', h_distance, dict(metric='seuclidean', layout=[0, 0], batch=2, kwform='V'), bounds='seuclidean V'),
     H('chebyshev_b1', h_distance, dict(metric='chebyshev', layout=[0, 0, 0], batch=1), bounds='3 scalar summaries, batch 1'),
+    H('metric_matrix_b2', h_metric_matrix, dict(layout=[0, 2], batch=2),
+      bounds='metric x extra arguments solver-chosen over 11 string metrics and the arguments scipy accepts for each (none / w / '
+             'p / p+w / V / VI); scalar + width-2 summary, batch 2'),
     H('callable', h_distance_callable, dict(layout=[0, 2], batch=2), bounds='callable distance, scalar+width-2, batch 2'),
     H('adaptive_scale_N4', h_adaptive_scale, dict(N=4, layout=[0, 0]), bounds='N=4 rows, 2 scalar summaries, all 8 compositions'),
     H('adaptive_scale_N5_vec', h_adaptive_scale, dict(N=5, layout=[2]), bounds='N=5, width-2 summary, all 16 compositions'),
